@@ -45,4 +45,27 @@ def canonHalf (h : Nat) : Nat := if isNaN 5 10 h then 0x7E00 else h
 def canonSingle (b : Nat) : Nat := if isNaN 8 23 b then 0x7FC00000 else b
 def canonDouble (b : Nat) : Nat := if isNaN 11 52 b then 0x7FF8000000000000 else b
 
+/-- the binary16 pattern denoting the same value as the binary32 pattern `b`, when there is one
+(±0, half-normal and half-subnormal values, ±∞); the canonical quiet NaN for any NaN.
+For values that are not half-representable the result is unspecified here (C15 only asks for totality). -/
+def singleToHalf (b : Nat) : Nat :=
+  let sign := b / 2 ^ 31 % 2
+  let e := b / 2 ^ 23 % 256
+  let m := b % 2 ^ 23
+  if e = 255 then (if m = 0 then sign * 0x8000 + 0x7C00 else 0x7E00)
+  else if e = 0 then sign * 0x8000
+  else if 113 ≤ e ∧ e ≤ 142 then sign * 0x8000 + (e - 112) * 1024 + m / 2 ^ 13       -- 2^-14 ≤ |x| < 2^16
+  else if 103 ≤ e ∧ e < 113 then sign * 0x8000 + (2 ^ 23 + m) / 2 ^ (126 - e)        -- half subnormals
+  else sign * 0x8000
+
+/-- `b` holds a value some binary16 pattern denotes -/
+def halfRepresentable (b : Nat) : Bool :=
+  let e := b / 2 ^ 23 % 256
+  let m := b % 2 ^ 23
+  if e = 255 then true
+  else if e = 0 then m = 0
+  else if 113 ≤ e ∧ e ≤ 142 then m % 2 ^ 13 = 0
+  else if 103 ≤ e ∧ e < 113 then (2 ^ 23 + m) % 2 ^ (126 - e) = 0
+  else false
+
 end Spec.Float
